@@ -88,6 +88,7 @@ package inprocgrpc
 // ---- frame transport: readMessage / writeMessage (C01, C04, C05, C20) ----
 //
 //@ func writeMessage
+//@   locks_only[C05] nothing
 //@   requires !closed(ch) && ch != nil
 //@   blocking_escape[C05,C04,C20] ctx
 //@   ensures[C04,C05] only_nil_eof_or_the_context_error: result == nil || result == io.EOF || result == ctx_err(ctx)
@@ -95,6 +96,7 @@ package inprocgrpc
 //@   modifies nothing
 //
 //@ func readMessage
+//@   locks_only[C05] nothing
 //@   blocking_escape[C05,C04] ctx
 //@   ensures[C04] success_only_with_a_live_context: result1 == nil ==> ctx_err(ctx) == nil
 //@   ensures[C04,C05] errors_are_eof_or_the_context_error: result1 == nil || result1 == io.EOF || (result1 == ctx_err(ctx) && result1 != nil)
@@ -145,6 +147,7 @@ package inprocgrpc
 //@   invariant[C03] state_is_valid: 0 <= self.state && self.state <= 2 && self.responses != nil
 //
 //@ func (*inProcessServerStream).TrySetTrailer
+//@   locks_only[C05] &s.mu
 //@   ensures[C03] closed_stream_trailers_refused_and_nothing_changes: at_lock(s.state == 2) ==> result != nil && s.trailers == at_lock(s.trailers) && (forall k string :: has(s.trailers, k) == at_lock(has(s.trailers, k)) && s.trailers[k] == at_lock(s.trailers[k]))
 //@   loop loop#1 invariant[C03] map_ready: md != at_lock(s.trailers) ==> s.trailers != nil && s.trailers != md && !(s.state == 2) && held(&s.mu) && (at_lock(s.trailers) != nil ==> s.trailers == at_lock(s.trailers))
 //@   loop loop#1 invariant[C03] visited_keys_grew_others_unchanged: md != at_lock(s.trailers) ==> (forall k string :: (iter_visited(k) && has(md, k) ==> has(s.trailers, k) && len(s.trailers[k]) == at_lock(len(s.trailers[k])) + len(md[k])) && (!iter_visited(k) ==> has(s.trailers, k) == at_lock(has(s.trailers, k)) && (has(s.trailers, k) ==> s.trailers[k] == at_lock(s.trailers[k]))))
@@ -155,6 +158,7 @@ package inprocgrpc
 //@   modifies s.trailers, maps("metadata.MD"), mem("string")
 //
 //@ func (*inProcessServerStream).setHeader
+//@   locks_only[C05] &s.mu
 //@   ensures[C03] headers_after_they_were_sent_refused_and_nothing_changes: at_lock(s.state != 0) ==> result != nil && s.headers == at_lock(s.headers) && (forall k string :: has(s.headers, k) == at_lock(has(s.headers, k)) && s.headers[k] == at_lock(s.headers[k]))
 //@   loop loop#1 invariant[C03] map_ready: md != at_lock(s.headers) ==> s.headers != nil && s.headers != md && !(s.state != 0) && held(&s.mu) && (at_lock(s.headers) != nil ==> s.headers == at_lock(s.headers))
 //@   loop loop#1 invariant[C03] visited_keys_grew_others_unchanged: md != at_lock(s.headers) ==> (forall k string :: (iter_visited(k) && has(md, k) ==> has(s.headers, k) && len(s.headers[k]) == at_lock(len(s.headers[k])) + len(md[k])) && (!iter_visited(k) ==> has(s.headers, k) == at_lock(has(s.headers, k)) && (has(s.headers, k) ==> s.headers[k] == at_lock(s.headers[k]))))
@@ -166,6 +170,7 @@ package inprocgrpc
 //@   modifies everything
 //
 //@ func (*inProcessServerStream).sendHeadersLocked
+//@   locks_only[C05] nothing
 //@   requires held(&s.mu) && s.state == 0 && !closed(s.responses) && s.responses != nil
 //@   ensures[C03] at_most_one_header_frame_and_none_when_empty: calls(writeMessage) <= 1 && (old(len(s.headers)) == 0 ==> !called(writeMessage))
 //@   assert_call[C03,C01] writeMessage : headers_frame_on_the_response_channel: arg0 == s.ctx && arg1 == nil && arg2 == s.responses && arg3.headers == s.headers && arg3.data == nil && arg3.trailers == nil && arg3.err == nil
@@ -175,6 +180,7 @@ package inprocgrpc
 //@   modifies s.headers, s.state
 //
 //@ func (*inProcessServerStream).finish
+//@   locks_only[C05] &s.mu
 //@   requires !held(&s.mu) && !closed(s.responses) && s.responses != nil
 //@   sole_closer s.responses
 //@   assert_call[C05] inprocgrpc.inProcessServerStream.onDone : done_is_signalled_before_the_lock_is_taken: !held(&s.mu) && !called(writeMessage)
@@ -190,6 +196,7 @@ package inprocgrpc
 //@   modifies s.state, s.trailers
 //
 //@ func (*inProcessServerStream).SendMsg
+//@   locks_only[C05] &s.mu
 //@   ensures[C05] after_the_end_sends_report_eof_and_send_nothing: !called(writeMessage) && !called("(*inProcessServerStream).sendHeadersLocked") ==> result != nil
 //@   assert_call[C03] (*inProcessServerStream).sendHeadersLocked : headers_flushed_before_the_first_message: arg0 == s && !called(writeMessage) && s.state == 0
 //@   assert_call[C06,C01] inprocgrpc.Cloner.Clone : of_the_handlers_message: arg0 == s.cloner && arg1 == m$entry
@@ -200,6 +207,7 @@ package inprocgrpc
 //@   modifies s.headers, s.state, external
 //
 //@ func (*inProcessServerStream).RecvMsg
+//@   locks_only[C05] nothing
 //@   assert_call[C01,C04] readMessage : next_request_frame_with_the_stream_context: arg0 == s.ctx && arg1 == s.requests
 //@   ensures[C04,C05] receive_error_is_returned: lastresult(readMessage, 1) != nil ==> result == lastresult(readMessage, 1) && !called("inprocgrpc.Cloner.Copy")
 //@   assert_call[C06,C01] inprocgrpc.Cloner.Copy : request_is_copied_into_the_handlers_message: arg0 == s.cloner && arg1 == m && arg2 == lastresult(readMessage, 0).data
@@ -216,11 +224,13 @@ package inprocgrpc
 //@   invariant[C05] requests_closed_exactly_when_send_closed: (closed(self.requests) <==> self.sendClosed) && self.requests != nil
 //
 //@ func (*inProcessClientStream).CloseSend
+//@   locks_only[C05] &s.reqMu
 //@   sole_closer s.requests
 //@   ensures[C05] half_closed_exactly_once: result == nil && s.sendClosed && closed(s.requests)
 //@   modifies s.sendClosed
 //
 //@ func (*inProcessClientStream).SendMsg
+//@   locks_only[C05] &s.reqMu
 //@   ensures[C05] send_after_close_fails_and_sends_nothing: at_lock(s.sendClosed) ==> result != nil && !called(writeMessage)
 //@   ensures[C06] nil_message_is_refused: called(isNil) && lastresult(isNil) ==> is_status_err(result) && err_status_code(result) == 13 && !called(writeMessage)
 //@   assert_call[C06,C01] inprocgrpc.Cloner.Clone : of_the_callers_message: arg0 == s.cloner && arg1 == m$entry
@@ -230,19 +240,25 @@ package inprocgrpc
 //@   modifies external
 //
 //@ func (*inProcessClientStream).Trailer
+//@   locks_only[C05] &s.respMu
 //@   ensures[C03] result == at_lock(s.trailers)
 //@   modifies nothing
 //
 //@ func (*inProcessClientStream).RecvMsg
+//@   locks_only[C05] &s.respMu
 //@   ensures[C08,C01] delegates_under_the_lock_with_single_response_mode: calls("(*inProcessClientStream).recvMsgLocked") == 1 && result == lastresult("(*inProcessClientStream).recvMsgLocked")
 //@   assert_call[C08] (*inProcessClientStream).recvMsgLocked : last_message_iff_not_response_streaming: arg0 == s && arg1 == m && (arg2 <==> !s.responseStream) && held(&s.respMu)
 //@   modifies everything
 //
 //@ func (*inProcessClientStream).recvMsgLocked
+//@   locks_only[C05] nothing
 //@   requires held(&s.respMu)
 //@   loop loop#1 invariant[C01,C08] nothing_delivered_yet: !called("inprocgrpc.Cloner.Copy") && !called("(*inProcessClientStream).ensureNoMoreLocked") && !called("internal.TranslateContextError") && held(&s.respMu)
 //@   ensures[C01,C06] at_most_one_copy_into_the_callers_message: calls("inprocgrpc.Cloner.Copy") <= 1
 //@   assert_call[C06,C01] inprocgrpc.Cloner.Copy : into_the_callers_message: arg0 == s.cloner && arg1 == m
+//@   assert_call[C01,C06] inprocgrpc.Cloner.Copy : peeked_frame_first_else_the_frame_just_read: arg2 != nil && (!called(readMessage) ==> old(s.last) != nil && arg2 == old(s.last.data)) && (called(readMessage) ==> arg2 == lastresult(readMessage, 0).data)
+//@   ensures[C01] a_peeked_message_is_delivered_exactly_once: !lastMessage && !called(readMessage) && called("inprocgrpc.Cloner.Copy") && lastresult("inprocgrpc.Cloner.Copy") == nil ==> s.last == nil
+//@   assert_call[C01,C08] (*inProcessClientStream).ensureNoMoreLocked : the_delivered_frame_was_consumed_before_probing: arg0 == s && arg1 == m && (!called(readMessage) ==> s.last == nil)
 //@   ensures[C04,C02] every_failure_before_a_message_is_translated: !called("inprocgrpc.Cloner.Copy") ==> called("internal.TranslateContextError") && result == lastresult("internal.TranslateContextError")
 //@   ensures[C08] single_response_mode_checks_for_extra_messages: lastMessage && called("inprocgrpc.Cloner.Copy") && lastresult("inprocgrpc.Cloner.Copy") == nil ==> calls("(*inProcessClientStream).ensureNoMoreLocked") == 1 && result == lastresult("(*inProcessClientStream).ensureNoMoreLocked")
 //@   ensures[C01] streaming_mode_returns_the_copy_result: !lastMessage && called("inprocgrpc.Cloner.Copy") ==> result == lastresult("inprocgrpc.Cloner.Copy") && !called("(*inProcessClientStream).ensureNoMoreLocked")
@@ -253,6 +269,7 @@ package inprocgrpc
 //@   modifies s.state, s.last, s.headers, s.trailers, mem("metadata.MD"), mem("error"), external
 //
 //@ func (*inProcessClientStream).ensureNoMoreLocked
+//@   locks_only[C05] nothing
 //@   requires held(&s.respMu)
 //@   ensures[C08] probes_once_for_another_message: calls("(*inProcessClientStream).recvMsgLocked") == 1
 //@   assert_call[C06,C08] (*inProcessClientStream).recvMsgLocked : probe_never_touches_the_callers_message: arg0 == s && arg1 != m && !arg2
@@ -262,6 +279,7 @@ package inprocgrpc
 //@   modifies s.state, s.last, s.headers, s.trailers, mem("metadata.MD"), mem("error"), external
 //
 //@ func (*inProcessClientStream).Header
+//@   locks_only[C05] &s.respMu
 //@   ensures[C03] returns_the_headers_seen_so_far: result1 == nil ==> result0 == s.headers
 //@   assert_call[C04,C01] readMessage : first_frame_with_the_stream_context: arg0 == s.ctx && arg1 == s.responses && at_lock(s.state) == 0
 //@   ensures[C04] receive_failure_is_returned: called(readMessage) && lastresult(readMessage, 1) != nil && lastresult(readMessage, 1) != io.EOF ==> result0 == nil && result1 == lastresult(readMessage, 1)
@@ -308,10 +326,10 @@ package inprocgrpc
 //@ closure CloneFunc.copyFn
 //@   ensures[C18,C06] source_is_deep_cloned_first_exactly_once: calls("var:fn") == 1
 //@   assert_call[C18,C06] var:fn : of_the_source: arg0 == in$entry && !called("reflect.ValueOf")
-//@   ensures[C18] clone_failure_is_returned_and_destination_untouched: lastresult("var:fn", 1) != nil ==> result == lastresult("var:fn", 1) && !called("(reflect.Value).Set")
+//@   ensures[C18,C06] clone_failure_is_returned_and_destination_untouched: lastresult("var:fn", 1) != nil ==> result == lastresult("var:fn", 1) && !called("(reflect.Value).Set")
 //@   assert_call[C18,C06] reflect.ValueOf : first_the_clone_then_the_destination: (!called("reflect.ValueOf") ==> arg0 == lastresult("var:fn", 0)) && (called("reflect.ValueOf") ==> arg0 == out)
 //@   assert_call[C18,C06] (reflect.Value).Set : the_destination_receives_the_clone_not_the_source: arg0 == dest && arg1 == src && lastresult("(reflect.Value).CanSet")
-//@   ensures[C18] different_types_or_unsettable_are_refused: result == nil ==> calls("(reflect.Value).Set") == 1
+//@   ensures[C18,C06] different_types_or_unsettable_are_refused: result == nil ==> calls("(reflect.Value).Set") == 1
 //@   ensures[C18] at_most_one_set: calls("(reflect.Value).Set") <= 1
 //@   modifies external
 //
